@@ -162,6 +162,11 @@ class Package:
                     callee = self.functions[(file, f.id)]
                     if usable(callee):
                         return callee, None
+                # a method of a plain record class of the module, called on a value reached by name / attribute (`ode.jac.pattern()`)
+                if isinstance(f, ast.Attribute) and f.attr not in keep and not (isinstance(f.value, ast.Name) and f.value.id in ("self", "cls")):
+                    callee = self.record_method(file, f.attr)
+                    if usable(callee):
+                        return callee, f.value
                 return None
             # dispatch through a class-level table of the class's own functions (`self.T.get(key)(self, value)`) is the chain of
             # method calls it abbreviates: the helpers can then be put back
@@ -183,6 +188,25 @@ class Package:
                 pass
             cache[key] = fn
         return cache[key]
+
+    def record_method(self, file: str, name: str):
+        """The plain method `name` of a record class (@dataclass / NamedTuple) of module `file`, provided the call `<value>.name(..)`
+        can mean nothing else in that module: exactly one class of the file defines a method of that name, and it is not the name
+        of a method of the built-in str / list / dict / set / tuple / Path-like values.  None otherwise."""
+        if name.startswith("__") or any(hasattr(t, name) for t in (str, list, dict, set, tuple, bytes, int, float)) or name in _PATHLIKE:
+            return None
+        owners = [ci for ci in self.classes.values() if ci.file == file and name in ci.methods]
+        if len(owners) != 1:
+            return None
+        ci = owners[0]
+        is_rec = any(b.split(".")[-1] == "NamedTuple" for b in ci.bases) or \
+            any(ast.unparse(d).split("(")[0].split(".")[-1] == "dataclass" for d in ci.node.decorator_list)
+        fn = ci.methods[name]
+        if not is_rec or not isinstance(fn, ast.FunctionDef) or fn.decorator_list or not fn.args.args:
+            return None
+        if any(k in ci.methods for k in ("__getattr__", "__getattribute__")):
+            return None
+        return fn
 
     def module_tables(self, file: str) -> dict:
         from .normalize import module_tables
@@ -502,6 +526,9 @@ class Package:
         if (file, name) not in self.functions:
             raise AnalysisError(f"function {name} vanished from {file}", (file, 0), MISSING)
         return self.functions[(file, name)]
+
+
+_PATHLIKE = {"open", "exists", "mkdir", "read_text", "write_text", "write", "read", "close", "render", "get_template", "list_templates", "resolve", "glob", "unlink"}
 
 
 def _without_setattr(mod):
